@@ -16,7 +16,7 @@
 (*              keys changes its length by at most 8 bytes (C17), byte for *)
 (*              byte rather than by the arithmetic bound of Trace_Misc     *)
 (***************************************************************************)
-EXTENDS SlimWire
+EXTENDS SlimWireOld
 
 CONSTANTS Alphabet, MaxLen, MaxKeys
 
@@ -63,4 +63,16 @@ FilterSize ==
     /\ n0 <= 8 * Len(keys) + 256
     /\ \A P \in PrependedPs :
          Abs(Len(Stream(Encode(Content([i \in 1..Len(keys) |-> P \o keys[i]], Filter)))) - n0) <= 8
+
+Old0510 ==
+  (Len(keys) > 0 /\ ~(dd /\ hasvals)) =>
+    \A o \in Modes : \A minor \in {10, 11} :
+      LET c  == Content(keys, o)
+          m  == TLCEval(Encode(c))
+          bs == TLCEval(Old0510Stream(c, minor))
+          rd == ReadSection(bs)
+          ld == TLCEval(Load0510(rd.body, 1)) IN
+      /\ rd.err = "" /\ Compatible(HeaderVersion(bs)) /\ OneSection(HeaderVersion(bs))
+      /\ ld = Loaded0510Form(m)
+      /\ \A q \in Strings : GetIDB(ld, q) = GetIDB(m, q) /\ SearchIDB(ld, q) = SearchIDB(m, q)
 =============================================================================
